@@ -201,7 +201,10 @@ Qed.
 
 Lemma wf_set_inv : forall i els, wf_doc (NSet i els) = true ->
   forallb plain_leaf els = true /\ nodup_vals (map leaf_value els) = true.
-Proof. intros i els H. simpl in H. apply andb_true_iff in H. exact H. Qed.
+Proof.
+  intros i els H. simpl in H. apply andb_true_iff in H. destruct H as [_ H].
+  apply andb_true_iff in H. exact H.
+Qed.
 
 Lemma wf_plain_leaf : forall n, plain_leaf n = true -> wf_doc n = true.
 Proof. destruct n; simpl; intros; auto; discriminate. Qed.
